@@ -10,6 +10,7 @@ import (
 	"os"
 	"path"
 	"path/filepath"
+	"sort"
 	"strings"
 	"sync"
 	"syscall"
@@ -30,7 +31,6 @@ func New(fs afero.Fs, opts ...Option) storage.Store {
 	}
 	local := &localFS{
 		fs:    fs,
-		glob:  make(map[string][]string),
 		retry: true,
 	}
 
@@ -69,13 +69,11 @@ func WithLogger(logger *zap.Logger) Option {
 }
 
 type localFS struct {
-	fs        afero.Fs
-	glob      map[string][]string // current state of KeyPrefix matches
-	exclusive sync.Mutex          // mutex on glob access
-	lock      bool
-	rw        sync.RWMutex
-	retry     bool
-	l         *zap.Logger
+	fs    afero.Fs
+	lock  bool
+	rw    sync.RWMutex
+	retry bool
+	l     *zap.Logger
 }
 
 func (l *localFS) Has(ctx context.Context, key string) (bool, error) {
@@ -273,99 +271,53 @@ func (l *localFS) Keys(ctx context.Context) ([]string, error) {
 	return res, nil
 }
 
-// KeyPrefix provides a paginated key iterator using "pageToken" as the next starting point
+// KeysPrefix provides a paginated key iterator using "pageToken" as the next starting point.
 //
-// NOTE: this cursory implementation is at the moment only used by mocks in test. A more thorough approach
-// is required to make KeyPrefix a first class citizen for localfs.
+// Like the object stores, it lists the keys starting with the (verbatim) prefix, rolled up at the first
+// delimiter found after the prefix, without duplicates and in lexicographic order. A page holds the first
+// count items not lower than the token, and next is the item the following page starts with ("" when done).
+// A prefix written with a leading "/" yields keys with a leading "/".
 //
-// TODO(known limitations):
-//   - this implementation does not really scale up, but it is quite workable for our testcases using localfs.
-//   - this implementation is not meant for parallel use with mutable FS.
+// Every call walks the tree under the directory part of the prefix: nothing is cached between pages,
+// so this does not scale up, but it is quite workable for our testcases using localfs.
 func (l *localFS) KeysPrefix(_ context.Context, token, prefix, delimiter string, count int) ([]string, string, error) {
-	l.exclusive.Lock()
-	defer l.exclusive.Unlock()
-
+	if l.lock {
+		l.rw.RLock()
+		defer l.rw.RUnlock()
+	}
 	noRoot := !strings.HasPrefix(prefix, "/")
-	prefix = path.Clean("/" + prefix)
-
-	// we cache the result for the duration of the fetch loop: during this period, localfs updates are not seen
-	search, ok := l.glob[prefix]
-	if !ok {
-		// NOTE: Glob is not workable, fall back to Walk
-		matches := make([]string, 0, 50)
-		err := afero.Walk(l.fs, path.Dir(prefix), func(pth string, info os.FileInfo, err error) error {
-			if info.IsDir() || err != nil {
-				return nil
-			}
-			if strings.HasPrefix(pth, prefix) {
-				if delimiter != "" && len(pth) > len(prefix) {
-					if cut := strings.Index(pth[len(prefix):], delimiter); cut > -1 {
-						pth = pth[0 : len(prefix)+cut+1]
-					}
-				}
-				if noRoot {
-					pth = strings.TrimPrefix(pth, "/")
-				}
-				matches = append(matches, pth)
-			}
+	seen := make(map[string]struct{}, 50)
+	matches := make([]string, 0, 50)
+	err := afero.Walk(l.fs, path.Dir("/"+prefix), func(pth string, info os.FileInfo, err error) error {
+		if err != nil || info.IsDir() {
+			return nil // a missing or unreadable directory holds no key
+		}
+		if noRoot {
+			pth = strings.TrimPrefix(pth, "/")
+		}
+		if !strings.HasPrefix(pth, prefix) {
 			return nil
-		})
-		if err != nil {
-			return nil, "", err
 		}
 		if delimiter != "" {
-			// dedupe truncated matches
-			deduped := make([]string, 0, len(matches))
-			for _, match := range matches {
-				dupe := false
-				for _, lookup := range deduped {
-					if match == lookup {
-						dupe = true
-						break
-					}
-				}
-				if !dupe {
-					deduped = append(deduped, match)
-				}
+			if cut := strings.Index(pth[len(prefix):], delimiter); cut > -1 {
+				pth = pth[:len(prefix)+cut+len(delimiter)]
 			}
-			matches = deduped
 		}
-		l.glob[prefix], search = matches, matches
-	}
-
-	var (
-		start, end int
-		next       string
-	)
-
-	if token == "" {
-		start = 0
-	} else {
-		found := false
-		for i, lookup := range search {
-			if token != lookup {
-				continue
-			}
-			found = true
-			start = i
-			break
+		if _, dupe := seen[pth]; !dupe {
+			seen[pth] = struct{}{}
+			matches = append(matches, pth)
 		}
-		if !found {
-			delete(l.glob, prefix)
-			return []string{}, "", nil
-		}
+		return nil
+	})
+	if err != nil {
+		return nil, "", err
 	}
-
-	if len(search) > start+count {
-		next = search[start+count]
-		end = start + count
-	} else {
-		next = ""
-		end = len(search)
-		delete(l.glob, prefix)
+	sort.Strings(matches)
+	matches = matches[sort.SearchStrings(matches, token):]
+	if count >= 0 && count < len(matches) {
+		return matches[:count], matches[count], nil
 	}
-
-	return search[start:end], next, nil
+	return matches, "", nil
 }
 
 func (l *localFS) Clear(ctx context.Context) error {
